@@ -7,19 +7,41 @@ import InTotoModel.Model.AttestCodec
 namespace InToto.AttestCodec
 open InToto InToto.Wire InToto.Attest
 
+def sArtifacts : Str := "artifacts".toList
+def sCommand : Str := "command".toList
+def sByproducts : Str := "byproducts".toList
+def sTime : Str := "time".toList
+
+def normPredicateVer : JV → Option JV
+  | .str s => if (predicateVerOf s).isSome then some (.str s) else none
+  | _ => none
+
+def normTime : JV → Option JV
+  | .str s => (Time.normTimeStamp s).map .str
+  | _ => none
+
+def stdNorm (n : Str) (j : JV) : Option JV :=
+  if n = sArtifacts then (artsOfJson j).map artsToJson
+  else if n = sCommand then (commandOfJson j).map commandToJson
+  else if n = sByproducts then (byProductsOfJson j).map byProductsToJson
+  else if n = sPredicateVer then normPredicateVer j
+  else if n = sTime then normTime j
+  else none
+
 def stdExt : Ext where
-  norm := fun n j =>
-    if n = "artifacts".toList then (artsOfJson j).map artsToJson
-    else if n = "command".toList then (commandOfJson j).map commandToJson
-    else if n = "byproducts".toList then (byProductsOfJson j).map byProductsToJson
-    else if n = sPredicateVer then
-      match j with
-      | .str s => if (predicateVerOf s).isSome then some (.str s) else none
-      | _ => none
-    else if n = "time".toList then
-      match j with
-      | .str s => (Time.normTimeStamp s).map .str
-      | _ => none
-    else none
+  norm := stdNorm
+
+theorem stdNorm_artifacts (j : JV) : stdNorm sArtifacts j = (artsOfJson j).map artsToJson := by
+  simp only [stdNorm, if_true]
+
+theorem stdNorm_command (j : JV) : stdNorm sCommand j = (commandOfJson j).map commandToJson := by
+  simp only [stdNorm, show sCommand ≠ sArtifacts from by decide, if_false, if_true]
+
+theorem stdNorm_byproducts (j : JV) : stdNorm sByproducts j = (byProductsOfJson j).map byProductsToJson := by
+  simp only [stdNorm, show sByproducts ≠ sArtifacts from by decide, show sByproducts ≠ sCommand from by decide, if_false, if_true]
+
+theorem stdNorm_time (j : JV) : stdNorm sTime j = normTime j := by
+  simp only [stdNorm, show sTime ≠ sArtifacts from by decide, show sTime ≠ sCommand from by decide,
+    show sTime ≠ sByproducts from by decide, show sTime ≠ sPredicateVer from by decide, if_false, if_true]
 
 end InToto.AttestCodec
